@@ -489,7 +489,7 @@ func runProcess(toks []string) string {
 		case strings.HasPrefix(op, "L"):
 			i, _ := strconv.Atoi(op[1:])
 			if err := ms.Parse(texts[i], names[i]); err != nil {
-				out.Loads = append(out.Loads, "err")
+				out.Loads = append(out.Loads, "err: "+strings.SplitN(err.Error(), "\n", 2)[0])
 			} else {
 				out.Loads = append(out.Loads, "ok")
 			}
